@@ -96,6 +96,40 @@ def run(repo: Repo, tier: str) -> Report:
     rs = kernel(kernels, "rolling_sum")
     mg = kernel(kernels, "mean_grp")
 
+    # =============================================================== R-ACC (typed IR, before any structural reading of the kernels)
+    # Whatever the shape of the reduction, a sum of window / group cells is held in a float or a 64-bit integer for every declared signature:
+    # a computed value stored into a narrower integer element wraps as soon as the running total leaves that type.
+    from ..typedir import typed_facts
+    INT_BITS = {"int8": 8, "uint8": 8, "int16": 16, "uint16": 16, "int32": 32, "uint32": 32}
+    tnames = ["rolling_sum", "mean_grp"]
+    # njit helpers they call (typed with the argument types of the call sites), transitively; read from the source as written, because
+    # the loader inlines helpers the reference tree does not have
+    raw = {n_.name: n_ for n_ in ast.parse(repo.mod(rs.module).src).body if isinstance(n_, ast.FunctionDef)}
+    work = [raw[x] for x in ("rolling_sum", "mean_grp") if x in raw]
+    while work:
+        cur = work.pop()
+        for c_ in ast.walk(cur):
+            if isinstance(c_, ast.Call) and isinstance(c_.func, ast.Name) and c_.func.id in raw and c_.func.id in kernels and c_.func.id not in tnames:
+                tnames.append(c_.func.id)
+                work.append(raw[c_.func.id])
+    tfacts = [f for f in typed_facts(repo.root, tnames) if f["kernel"] in tnames]
+    rep.floor("typed rolling_sum / mean_grp signatures", len(tfacts), 7)
+    n_st = 0
+    for f in tfacts:
+        if not f["ok"]:
+            rep.ob("NB-TYPES", FILE, f["kernel"], f"signature {f['args']} types", False, f["error"][:200], f"{f['kernel']}{tuple(f['args'])}")
+            continue
+        for st_ in f["setitems"]:
+            n_st += 1
+            tb = INT_BITS.get(st_["target_dtype"])
+            if tb is None or st_["value_type"].startswith("Literal") or st_["value_dtype"] == st_["target_dtype"]:
+                continue
+            rep.ob("R-ACC", FILE, f["kernel"], "computed sums are stored in float or 64-bit integer elements", False,
+                   f"line {st_['line']}: a {st_['value_dtype']} value is stored into `{st_['target']}` with {st_['target_dtype']} elements under signature "
+                   f"({', '.join(f['args'])}): a running total / sum of cells wraps at {2 ** (tb - (0 if st_['target_dtype'].startswith('u') else 1)) - 1}",
+                   f"{f['kernel']}: {st_['target']} <- {st_['value_dtype']} [{st_['target_dtype']}]", line=st_["line"], kind=f"{st_['target_dtype']} <- {st_['value_dtype']}")
+    rep.ob("R-ACC", FILE, "rolling_sum/mean_grp", "no computed value is stored into a narrow integer element (all declared signatures)", True,
+           f"{n_st} typed stores over {len(tfacts)} signatures", "typed stores of rolling_sum and mean_grp", kind="typed IR")
     # =============================================================== rolling_sum
     xx, ws, nodata, yy = rs.params
     da = DivAnalysis(rs.node, FILE, array_params_of(rs))
